@@ -469,8 +469,8 @@ func runC12(r *rt.Run, tier string) {
 func init() {
 	register(&Prop{
 		ID: "C12", Level: "exploration", Variant: "N", Design: "DESIGN.md §5 C12",
-		Rule: "Stream part: a byte string (0..70 KB), an algorithm list (1..5 of md5/sha1/sha256/sha512, any order, repeats), direction (hashing writer(s) or reader(s)), the caller's chunk/buffer sizes, the simulated source's delivery schedule incl. (n,EOF) and zero reads, and optionally one fault (short write/ENOSPC/EIO of the sink, EIO of the source); size and digests are compared with crypto/* after every step for small inputs. Verifier part: Checksums-Sha256/-Sha512 fields with recorded hashes that are equal, upper-case, one nibble off, truncated, of the other algorithm, not hex or odd-length are parsed through control.Unmarshal over a simulated stream into typed slices and BestChecksums, and entries are built with FileHashFromHasher; each content is streamed through Verifier() in tape-chosen chunks.",
-		Run: runC12,
+		Rule:      "Stream part: a byte string (0..70 KB), an algorithm list (1..5 of md5/sha1/sha256/sha512, any order, repeats), direction (hashing writer(s) or reader(s)), the caller's chunk/buffer sizes, the simulated source's delivery schedule incl. (n,EOF) and zero reads, and optionally one fault (short write/ENOSPC/EIO of the sink, EIO of the source); size and digests are compared with crypto/* after every step for small inputs. Verifier part: Checksums-Sha256/-Sha512 fields with recorded hashes that are equal, upper-case, one nibble off, truncated, of the other algorithm, not hex or odd-length are parsed through control.Unmarshal over a simulated stream into typed slices and BestChecksums, and entries are built with FileHashFromHasher; each content is streamed through Verifier() in tape-chosen chunks.",
+		Run:       runC12,
 		QuickRuns: 150000, QuickSecs: 30, ThoroughRuns: 5_000_000, ThoroughSecs: 900,
 		Components: map[string]interface{}{
 			"real": []string{"pault.ag/go/debian/hashio", "pault.ag/go/debian/control (FileHash.Verifier, FileHashFromHasher, BestChecksums, Unmarshal)"},
